@@ -131,7 +131,8 @@ func hmGetAllIndexes(hm *HashMap) (r.Element, error) {
 func hmGetAllValues(hm *HashMap) (r.Element, error) {
 	var vals []r.Element
 	for _, keyName := range hm.keyOrder {
-		vals = append(vals, hm.value[keyName])
+		// (the new list has items of its own)
+		vals = append(vals, DuplicateValue(hm.value[keyName]))
 	}
 	return NewArray(vals), nil
 }
